@@ -152,6 +152,14 @@ def main(argv):
         return c.finish()
 
     table = model_table(model)
+    # generated-table obligations of this run: one kind_ok per regenerated kind description (the conjuncts of
+    # generated_table_complete), counted from the table the extracted model was built with
+    c.cov["obligations"] += len(table["kinds"])
+    if proof_ok and table["complete"]:
+        c.cov["discharged"] += len(table["kinds"])
+    else:
+        broken_kinds = set(g[0] for g in table["gaps"])
+        c.cov["discharged"] += len([k for k in table["kinds"] if k not in broken_kinds]) if table["gaps"] else 0
     cases_path = os.path.join(c.work, "cases.txt")
     if c.replay:
         rp = json.load(open(c.replay))
